@@ -230,6 +230,29 @@ P("C05", "buffers keep size, content, terminator and exclusive ownership over an
               "thorough": "the same table"},
   dbits={"quick": 22, "thorough": 25})
 
+P("C04", "ST::string has value semantics: reads never mutate, results never alias", "value",
+  level_text=("runtime monitoring of histories: a pool of 12 strings of every size class (each object in a heap block of exactly sizeof(ST::string) bytes) is driven through random sequences of ~30 kinds of const "
+              "operations (slicing, trimming, case mapping, replace, split, tokenize, concatenation, conversions, comparison/search/hash, formatting, streaming, copies; deliberately including results equal to the source) "
+              "and ~16 mutators (assignment, set, +=, clear, moves, and the self-referential s=s, s+=s, s.set(s), s=move(s), s.replace(s,s), s=s.substr(1)) under ASan+UBSan; every live string is snapshotted (bytes, size, data "
+              "pointer) before each step and compared after it, every returned string must own its storage (in-object or one registry block nobody else points at), and then either the source is overwritten/destroyed "
+              "first and the results re-read, or the results are modified first and all strings re-compared"),
+  technique="history monitoring with a shadow model + aliasing/ownership monitor (allocation registry, object footprint, snapshot comparison) under ASan+UBSan",
+  rule=("a case is one history (60 steps quick / 120 thorough); distinct by the operation sequence text; evaluations count snapshot comparisons; nothing trivial"),
+  assumptions=["the value of a moved-from string is unspecified: adopted if structurally valid", "std::string_view / c_str() results alias by design and are not held to independence",
+               "validating overloads may throw unicode_error on operands that are not valid UTF-8 (only reachable after a byte-wise cut of multi-byte text)"],
+  dbits={"quick": 22, "thorough": 25})
+
+P("C16", "string_stream content equals the concatenation of everything appended", "sstream",
+  level_text=("runtime monitoring of histories: a pool of 5 streams (each in a heap block of exactly sizeof(string_stream) bytes) is driven through random sequences of append (sizes around 256, 512, 1024... and single "
+              "appends spanning several doublings), append_char, every operator<< overload (text of all widths incl. views that are sub-ranges of larger buffers, integers incl. min/max, floats, chars, ST::string, STL strings), "
+              "truncate/erase to every size class, move construction/assignment in all four storage-mode combinations, use of moved-from streams and to_string in both interpretations and three validation modes, under "
+              "ASan+UBSan; after every step every stream's size() and raw_buffer() are compared with a byte-string model and its storage is classified through the allocation registry (in-object vs one exclusive new[] block); "
+              "conservation and quiescence detect leaks and double frees; a CPU-time watchdog detects non-termination"),
+  technique="history monitoring with a byte-string shadow model + structural invariant hooks (allocation registry) under ASan+UBSan, CPU watchdog",
+  rule=("a case is one history (60 steps quick / 120 thorough over 5 streams); distinct by the operation sequence text; evaluations count monitor sweeps (one per step over all live streams); nothing trivial"),
+  assumptions=["appending a range of the stream's own storage to itself is not generated", "wide-text arguments are valid (a throwing insertion is C18's subject)"],
+  dbits={"quick": 22, "thorough": 25})
+
 _PENDING = "check not registered yet in this revision of /verif (harness under construction; nothing is claimed)"
 for _p in ["C%02d" % i for i in range(1, 21)]:
     if _p not in PROPS:
